@@ -50,6 +50,32 @@ def all_classes(repo: Path):
     return out
 
 
+def enum_members(classes):
+    """str-valued / plain Enum classes of the scanned modules: {class name: {member: constant}}"""
+    out = {}
+    for name, c in classes.items():
+        if any("Enum" in ast.unparse(b) for b in c.bases):
+            out[name] = {t.id: st.value.value for st in c.body if isinstance(st, ast.Assign) and isinstance(st.value, ast.Constant)
+                         for t in st.targets if isinstance(t, ast.Name)}
+    return out
+
+
+class ResolveEnums(ast.NodeTransformer):
+    """_Key.RHO / _Key.RHO.value -> 'rho' (the members of a str-Enum ARE their values)"""
+
+    def __init__(self, enums):
+        self.enums = enums
+
+    def visit_Attribute(self, node):
+        if (node.attr == "value" and isinstance(node.value, ast.Attribute) and isinstance(node.value.value, ast.Name)
+                and node.value.value.id in self.enums and node.value.attr in self.enums[node.value.value.id]):
+            return ast.copy_location(ast.Constant(self.enums[node.value.value.id][node.value.attr]), node)
+        if isinstance(node.value, ast.Name) and node.value.id in self.enums and node.attr in self.enums[node.value.id]:
+            return ast.copy_location(ast.Constant(self.enums[node.value.id][node.attr]), node)
+        self.generic_visit(node)
+        return node
+
+
 def bases_of(classes, name, seen=None):
     seen = seen if seen is not None else []
     if name in seen or name not in classes:
@@ -80,6 +106,7 @@ def key_of(e, classes):
     raise Unrecognised("key expression " + ast.unparse(e))
 
 
+MODULE_CLASSES = {}  # every top-level class of the scanned modules (dataclasses holding private state)
 ALIASES = {}  # local name -> JSON key it holds (v = data.get(K) / v = data[K]); reset per from_json
 
 
@@ -288,7 +315,35 @@ def self_reads(fn: ast.FunctionDef, cls: ast.ClassDef = None, depth=3):
               and isinstance(n.func.value, ast.Name) and n.func.value.id == "self" and n.func.attr in methods}
     out = []
 
+    def dataclass_fields(attr):
+        """self.<attr> = <Dataclass>(...) in __init__ -> the field names of that dataclass (module-level class of the same file)"""
+        init = methods.get("__init__")
+        if init is None:
+            return None
+        for n in ast.walk(init):
+            if (isinstance(n, ast.Assign) and len(n.targets) == 1 and isinstance(n.targets[0], ast.Attribute)
+                    and isinstance(n.targets[0].value, ast.Name) and n.targets[0].value.id == "self" and n.targets[0].attr == attr
+                    and isinstance(n.value, ast.Call) and isinstance(n.value.func, ast.Name) and n.value.func.id in MODULE_CLASSES):
+                dc = MODULE_CLASSES[n.value.func.id]
+                if any("dataclass" in ast.unparse(d) for d in dc.decorator_list):
+                    return [st.target.id for st in dc.body if isinstance(st, ast.AnnAssign) and isinstance(st.target, ast.Name)]
+        return None
+
     class V(ast.NodeVisitor):
+        def visit_Call(self, n):
+            f = ast.unparse(n.func)
+            if f in ("dataclasses.asdict", "asdict") and len(n.args) == 1:
+                a = n.args[0]
+                if isinstance(a, ast.Attribute) and isinstance(a.value, ast.Name) and a.value.id == "self":
+                    fields = dataclass_fields(a.attr)
+                    if fields is not None and all(f_ in methods for f_ in fields):
+                        # every field is exposed as a property of the same name: the quantities read are those public ones
+                        for f_ in fields:
+                            if f_ not in out:
+                                out.append(f_)
+                        return
+            self.generic_visit(n)
+
         def visit_Attribute(self, n):
             if isinstance(n.value, ast.Name) and n.value.id == "self" and isinstance(n.ctx, ast.Load):
                 if id(n) in called and depth > 0 and n.attr not in ("_call", "_sample_shape"):
@@ -353,10 +408,13 @@ def translate(repo: Path):
     repo = Path(repo)
     notes, ok, table = [], True, {}
     classes = all_classes(repo)
+    MODULE_CLASSES.clear()
+    MODULE_CLASSES.update(classes)
     src = []
     for cname, rel in CLASSES.items():
         try:
             cls = next(n for n in ast.parse((repo / rel).read_text()).body if isinstance(n, ast.ClassDef) and n.name == cname)
+            cls = ast.fix_missing_locations(ResolveEnums(enum_members(classes)).visit(cls))
             rows = from_json_rows(cls, classes)
             reads = []
             for m in ("_call", "_sample_shape"):
@@ -365,7 +423,9 @@ def translate(repo: Path):
                     raise Unrecognised(f"{cname}.{m} missing")
                 reads = sorted(set(reads) | set(self_reads(fn, cls)))
             init_attrs = init_assigned(classes, cname)
-            defs = [d for d in defined_attrs(classes, cname) if d in init_attrs or not d.startswith("_") or d in reads or d.startswith("__")]
+            # what the table needs: public names (attributes, properties, methods) and whatever `_call` reads; private storage
+            # (a dataclass behind same-named properties, caches, …) is not part of it. One canonical order.
+            defs = sorted(d for d in set(defined_attrs(classes, cname)) | set(init_attrs) if not d.startswith("_") or d in reads)
             inert = inert_handlers(cls)
             table[cname] = {"options": rows, "reads": reads, "defs": defs, "inert": inert}
             opt = ",\n      ".join(f"⟨{lstr(p)}, {lstr(k)}, {lstr(g)}, {lstr(kind)}, {lstr(exp)}, {'true' if isp else 'false'}⟩"
